@@ -278,9 +278,10 @@ Definition ok_forwarding (ops : list sop) (evs : list sev) (backlog : list (Z * 
   else true.
 
 Definition c20_sched_row (q0 : list Z) (ops : list sop) (oevs : list sev)
-  (oq : list Z) (ob : list (Z * list Z)) : list bool :=
-  let '(st, evs) := srun (mkS q0 []) ops in
+  (oq : list Z) (ob : list (Z * list Z)) (og : list Z) : list bool :=
+  let '(st, evs) := srun (mkS q0 [] []) ops in
   [ eqb_list sev_eqb evs oevs && zl_eqb (s_queues st) oq
+    && forallb (fun g => memZ g og) (s_gone st) && forallb (fun g => memZ g (s_gone st)) og
     && eqb_list (eqb_prod Z.eqb zl_eqb) (s_backlog st) ob ]
   ++ pad 6 ++ [ ok_forwarding ops oevs ob ] ++ pad 4.
 
